@@ -279,7 +279,7 @@ Definition elem_text_value (e : selem) : option (list vtok) :=
   match se_text e with None => None | Some T => text_value T end.
 
 Definition elem_node (e : selem) : anode :=
-  ANode (Some (se_name e)) (elem_text_value e) None (attrs_opt (written_mentions e)) [] false.
+  ANode (Some (se_name e)) (elem_text_value e) None (attrs_opt (written_mentions e)) [] (se_close e).
 
 Lemma conv_elem env pos e st :
   selem_ok e -> conv_stmt env (leaf_node (elem_leaf pos e)) st = Ok ([elem_node e], st).
@@ -352,16 +352,16 @@ Theorem attr_value_literal jsx env mr (name n : str) (v : sval) :
 Proof.
   intros Hname Hj [Hne [Hsafe [Hdot Hexcl]]] Hv Htext.
   pose (a := mkSAttr false n false v).
-  pose (e := mkSElem name [PSet [a]] None).
+  pose (e := mkSElem name [PSet [a]] None false).
   assert (Han : aname_text a = n) by (unfold aname_text, a; cbn; apply app_nil_r).
   assert (Hok : selem_ok e).
   { split; [exact Hname|]. split; [|exact I]. constructor; [|constructor]. cbn [spart_ok]. constructor; [|constructor].
     unfold sattr_ok. rewrite Han. cbn [sa_name sa_boolean sa_implied sa_value a]. repeat split; auto. }
   pose proof (element_attributes_text jsx env mr e Hok Hj Htext) as H.
-  unfold elem_text, e in H. cbn [se_name se_parts se_text tail_text parts_text part_text attrs_text] in H.
+  unfold elem_text, e in H. cbn [se_name se_parts se_text se_close close_text tail_text parts_text part_text attrs_text] in H.
   unfold attr_text in H. rewrite Han in H. cbn [sa_value a] in H.
   rewrite !app_nil_r in H. rewrite <- app_assoc in H. cbn [app] in H.
-  rewrite H. unfold elem_node, written_mentions, elem_text_value. cbn [se_text]. cbn [se_name se_parts flat_map part_mentions map app attrs_opt].
+  rewrite H. unfold elem_node, written_mentions, elem_text_value. cbn [se_text se_close]. cbn [se_name se_parts flat_map part_mentions map app attrs_opt].
   unfold attr_mention. cbn [sa_value sa_name sa_boolean sa_implied a].
   destruct v; reflexivity.
 Qed.
